@@ -5,19 +5,20 @@ import shutil
 from hypothesis import strategies as st
 
 from vf import meta as vmeta, sandbox, target
-from vf.engine import Outcome, Violation
+from vf.engine import HarnessError, Outcome, Violation
 from vf.gen import edits, trees
-from vf.instr import clock, listdir
+from vf.props import common
+from vf.instr import clock, listdir, pristine
 from vf.ref import bencode
 
 ID = "C08"
 LEVEL = "exploration"
-TECHNIQUE = "Hypothesis-generated metamorphic pairs: one payload/configuration created in a canonical environment and in a variant environment (path spelling, cwd, byte-identical copy elsewhere, harness-owned enumeration order, trackers/seeds/outfile, progress/quiet mode, harness-owned clock); info bytes must be equal ; output file inside the payload directory"
+TECHNIQUE = "Hypothesis-generated metamorphic pairs: one payload/configuration created in a canonical environment and in a variant environment (path spelling, cwd, byte-identical copy elsewhere, harness-owned enumeration order, trackers/seeds/outfile, progress/quiet mode, harness-owned clock); info bytes must be equal ; output file inside the payload directory ; history variant (unrelated create first) compared with a pristine forked interpreter"
 RULE = ("Cases: base configuration (tree, piece length, creator among all five, route library/CLI, private/source/comment) created once in a "
         "canonical environment and once in a variant that differs in any subset of: path spelling (absolute, relative to a drawn cwd, './', "
         "inner 'x/../', doubled separators, trailing '/', trailing '/.', 'sub/..', cwd inside the payload with path '.'), cwd, a "
         "byte-identical copy of the tree under another parent, directory enumeration order (os.listdir/os.scandir shim: sorted, reverse, "
-        "hashed), trackers / web seeds / http seeds / output file name, progress 0/1/2 and -q, clock instant. Oracle: canonical re-encoding "
+        "hashed), trackers / web seeds / http seeds / output file name, progress 0/1/2 and -q, clock instant, process history (an unrelated create with another creator / piece length runs first; the variant's info bytes are then also compared with the canonical create performed by a pristine interpreter - a server forked before any torrentfile operation forks one grandchild per query). Oracle: canonical re-encoding "
         "of the strict-decoded info dictionaries is identical; when nothing but the clock differs the whole metafiles are identical after "
         "deleting 'creation date'; when only trackers/seeds (and clock) differ the files differ only in announce, announce-list, url-list, "
         "httpseeds, creation date. Non-trivial: the variant differs in at least one dimension and either the spelling differs or some "
@@ -50,7 +51,7 @@ def strategy(tier):
             info_opts["source"] = draw(edits.text(cli_safe=True))
         if draw(st.booleans()):
             info_opts["comment"] = draw(edits.text(cli_safe=True))
-        dims = draw(st.lists(st.sampled_from(["spelling", "cwd", "copy", "order", "order", "trackers", "progress", "clock", "outname"]),
+        dims = draw(st.lists(st.sampled_from(["spelling", "cwd", "copy", "order", "order", "trackers", "progress", "clock", "outname", "history"]),
                              unique=True, min_size=draw(st.sampled_from([0, 1, 1, 1, 1, 1])), max_size=4))
         var = {"spelling": "abs", "cwd": "scratch", "copy": False, "order": 0, "announce": None, "url_list": None, "httpseeds": None,
                "progress": 0, "quiet": False, "clock": 1600000000, "outname": "o.torrent"}
@@ -71,6 +72,9 @@ def strategy(tier):
             var["quiet"] = draw(st.booleans())
         if "clock" in dims:
             var["clock"] = draw(st.integers(0, 4000000000))
+        if "history" in dims:
+            # the variant run comes after an unrelated create (other payload, creator, piece length) in the same process
+            var["history"] = draw(common.warmup().filter(lambda w: w is not None))
         if "outname" in dims:
             var["outname"] = draw(st.sampled_from(["other.torrent", "x", "sub-out.torrent", "INSIDE-CONTENT"]))
         return {"tree": t, "P": P, "creator": creator, "route": route, "info_opts": info_opts, "variant": var}
@@ -143,6 +147,34 @@ def create(case, env, root, scr, tag):
     return vmeta.Meta.from_file(out)
 
 
+_server = None
+BASE_ENV = {"spelling": "abs", "cwd": "scratch", "copy": False, "order": 0, "announce": None, "url_list": None, "httpseeds": None,
+            "progress": 0, "quiet": False, "clock": 1600000000, "outname": "o.torrent"}
+
+
+def perform(req):
+    """Runs in a grandchild of the pristine server: the canonical create in an interpreter that has done nothing else."""
+    try:
+        m = create(req["case"], BASE_ENV, req["root"], req["scr"], "fresh")
+    except Exception as e:  # noqa: BLE001
+        return {"exception": type(e).__name__}
+    return {"info": m.info_span.hex()}
+
+
+def setup_worker():
+    global _server
+    if _server is None:
+        _server = pristine.Pristine(perform)
+        _server.start()
+
+
+def teardown_worker():
+    global _server
+    if _server is not None:
+        _server.stop()
+        _server = None
+
+
 def run_case(case):
     target.reset()
     tree = case["tree"]
@@ -165,6 +197,13 @@ def run_case(case):
         except Exception as e:
             return Outcome(Violation("C08:base-exception:%s" % type(e).__name__, "create in the canonical environment raised %r" % (e,)), False)
         target.reset()
+        fresh = None
+        if var.get("history"):
+            if _server is not None:
+                fresh = _server.query({"case": case, "root": root, "scr": scr})
+                if "harness-error" in fresh:
+                    raise HarnessError("pristine side failed: %s" % fresh["harness-error"])
+            common.apply_warmup(scr, var["history"])
         applied = spell(var["spelling"], root2, scr, tree) is not None
         try:
             mv = create(case, var, root2, scr, "var")
@@ -172,9 +211,17 @@ def run_case(case):
             return Outcome(Violation("C08:variant-exception:%s:%s" % (var["spelling"] if applied else "abs", type(e).__name__),
                                      "create in the variant environment raised %r" % (e,)), True)
     dims = sorted(k for k in base if var[k] != base[k] and not (k == "spelling" and not applied))
+    if var.get("history"):
+        dims = sorted(dims + ["history"])
     classes = ["dim-" + d for d in dims] or ["identical-rerun"]
     if applied and var["spelling"] != "abs":
         classes.append("spelling-" + var["spelling"])
+    if fresh is not None:
+        classes.append("vs-fresh-interpreter")
+        if fresh.get("info") != mv.info_span.hex():
+            return Outcome(Violation("C08:info-differs:history-vs-fresh-interpreter", "info dictionary created after an unrelated create (%r) in a long-lived "
+                                     "process differs from the one an interpreter that has done nothing else creates (%s)" % (
+                                         var["history"], fresh.get("exception") or "other bytes")), True, classes)
     ib = bencode.encode(mb.info)
     iv = bencode.encode(mv.info)
     if ib != iv or mb.info_span != mv.info_span:
